@@ -1142,7 +1142,9 @@ type linkLabel struct {
 // [link label]: https://spec.commonmark.org/0.30/#link-label
 func parseLinkLabel(r *inlineByteReader) linkLabel {
 	// "A link label can have at most 999 characters inside the square brackets."
-	const maxChars = 999
+	// chars is the 1-based index of the current character after the opening bracket,
+	// so the closing bracket may be the 1000th.
+	const maxChars = 999 + 1
 
 	if r.current() != '[' {
 		return linkLabel{NullSpan(), NullSpan()}
@@ -1174,7 +1176,7 @@ func parseLinkLabel(r *inlineByteReader) linkLabel {
 		if r.current() == '\\' {
 			result.inner.End = r.pos + 1
 			chars++
-			if !r.next() {
+			if chars >= maxChars || !r.next() {
 				return linkLabel{NullSpan(), NullSpan()}
 			}
 			if !isSpaceTabOrLineEnding(r.current()) {
